@@ -406,7 +406,7 @@ theorem rowToValue_run {a : Nat} {h h' ar : UInt32} (s : VmState) (g : Nat)
   have hv : ((s.stack.data.set s.stack.count (s.stack.peekLast 1)).set (s.stack.count - 2)
       (s.stack.peekLast 1)).getD (s.stack.count - 2) default = s.stack.peekLast 1 := by
     rw [List.getD_eq_getElem?_getD, List.getElem?_set_self (by rw [List.length_set]; omega)]; rfl
-  simp only [loopEnd, rtvFinal, pop_after_ret, List.dropLast_concat, hv]
+  simp only [loopEnd, rtvFinal, pop_after_ret, List.take_left' rfl, hv]
 
 /-- **`run_function(row_to_value)`, inversion.** A call that returns satisfied the side conditions
     of `rowToValue_run` — so it returned the value and ended in `rtvFinal s`. -/
